@@ -116,3 +116,62 @@ def v_smooth_even(c, fw, dw):
     except ValueError:
         raised = True
     c.ensure_true("value_error", raised, "even window accepted")
+
+
+# ---------------------------------------------------------------------------------------
+# the accessor method hands its two windows to smooth_spec, each to the dimension it names
+
+
+def stub_smooth_spec(dset, freq_window=3, dir_window=3):
+    """callee contract as seen by the accessor: the result is a function of the array and of the two
+    windows, each in its own role (here: an injective tag of the pair applied to the data)"""
+    return dset * (as_sym_(freq_window) * 1000 + as_sym_(dir_window))
+
+
+def as_sym_(x):
+    from engine.pyse.core import as_sym
+
+    return as_sym(x)
+
+
+from engine.pyse import api as _api  # noqa: E402
+
+_api.CONTRACTS[SM].stub = stub_smooth_spec
+
+
+@contract("wavespectra.specarray:SpecArray.smooth", props=["C16"], scenarios=[{"dims": ("pos", "freq", "dir")}], uses=[SM], replays=6)
+def v_accessor_smooth(c, dims):
+    """da.spec.smooth(fw, dw) is smooth_spec(da, freq_window=fw, dir_window=dw): symbolically for every pair of
+    windows (callee abstracted by its contract), concretely against the real smooth_spec with unequal windows"""
+    m = c.m
+    if m.symbolic:
+        da = c.spectrum(dims, min_nf=3, min_nd=3)
+        fw, dw = c.int("freq_window", 1, 99), c.int("dir_window", 1, 99)
+        out = c.call(da.spec, fw, dw)
+        V, W = View(da), View(out)
+        pos = c.position(V)
+        i, j = c.index("i", V.NF), c.index("j", V.ND)
+        c.ensure_eq("windows_reach_smooth_spec_in_their_own_roles", W.E(pos, i, j), V.E(pos, i, j) * (fw * 1000 + dw))
+        out2 = c.call(da.spec, freq_window=fw, dir_window=dw)
+        c.ensure_eq("keyword_windows_reach_smooth_spec_in_their_own_roles", View(out2).E(pos, i, j), V.E(pos, i, j) * (fw * 1000 + dw))
+        return
+    import numpy as np
+    import xarray as xr
+    from wavespectra.core.utils import smooth_spec
+
+    r = np.random.default_rng(c.rng.randint(0, 2**31))
+    nf, nd = c.rng.choice([5, 7]), c.rng.choice([8, 12])
+    f = 0.05 * 1.1 ** np.arange(nf)
+    d = np.arange(nd) * 360.0 / nd
+    E = r.uniform(0, 3, (2, nf, nd))
+    da = xr.DataArray(E, dims=("time", "freq", "dir"), coords={"time": [0, 1], "freq": f, "dir": d}, name="efth")
+    fw, dw = c.rng.choice([(1, 3), (3, 1), (5, 1), (3, 7), (1, 5)])
+    got = c.call(da.spec, fw, dw)
+    want = smooth_spec(da, freq_window=fw, dir_window=dw)
+    c.ensure_true("accessor_equals_smooth_spec_with_the_same_windows", bool(np.allclose(got.values, want.values, rtol=1e-12, atol=0)), f"windows ({fw}, {dw})")
+    if dw == 1 and fw > 1:
+        # a direction window of one must not mix directions: each direction column is smoothed on its own
+        E2 = E.copy()
+        E2[..., 0] += 5.0
+        got2 = da.copy(data=E2).spec.smooth(fw, dw)
+        c.ensure_true("direction_window_of_one_does_not_mix_directions", bool(np.allclose(got2.values[..., 1:], got.values[..., 1:])), "other directions changed")
